@@ -260,7 +260,8 @@ func HandleTemplate(c *core.Check, st core.State) {
 	}
 	c.Count("vectors_replayed", 1)
 	x := e1.Render(v.Node, e1.Layout{})
-	for _, tsrc := range []string{"${" + x + "}", "pre-${" + x + "}-post", "%{ if true }${" + x + "}%{ endif }"} {
+	for _, tsrc := range []string{"${" + x + "}", "pre-${" + x + "}-post", "%{ if true }${" + x + "}%{ endif }",
+		"set {a, b} and ${" + x + "}", "{%{ if true }${" + x + "}%{ endif }}", "}{ $ % $${lit} %%{lit} ${" + x + "}"} {
 		js, _ := stdjson.Marshal(tsrc)
 		vec := map[string]any{"state": st.Raw, "template": tsrc, "json": string(js)}
 		c.Count("evaluations", 1)
